@@ -103,7 +103,7 @@ def forged_signature(obj, auto=True, args=(), kwargs={}):
                 try:
                     ret = _autoforwards.autoforwards_ast(
                         *h, args=args, kwargs=kwargs)
-                except _autoforwards.UnknownForwards:
+                except (_autoforwards.UnknownForwards, RecursionError):
                     pass
                 else:
                     return _signatures.UpgradedSignature._upgrade_with_warning(ret)
@@ -112,7 +112,9 @@ def forged_signature(obj, auto=True, args=(), kwargs={}):
             ret = _signatures.UpgradedSignature._upgrade_with_warning(
                 _autoforwards.autoforwards(subject, args, kwargs)
             )
-        except _autoforwards.UnknownForwards:
+        except (_autoforwards.UnknownForwards, RecursionError):
+            # RecursionError: a chain of forwarding functions longer than the
+            # interpreter's stack allows to follow
             pass
         else:
             return _signatures.UpgradedSignature._upgrade_with_warning(ret)
